@@ -254,11 +254,38 @@ class Delays:
         self.ch = ch
         self.profile = sched["profile"]
         self.factor = {}
+        self.order = sched.get("order")      # profile 'ordered': {"perms": [rank per worker, ...] per phase, "stall": (worker, phase)}
+
+    def _ordered(self, task, site):
+        """Deterministic schedule that forces the order in which the stripes reach each synchronisation point (a rank
+        x 100 s delay on the compute step that precedes the barrier) and optionally holds one stripe on the first source
+        line it executes after leaving a given barrier for 5000 s."""
+        if not task.name.startswith("w"):
+            return 0.0
+        idx = int(task.name[1:])
+        o = self.order
+        if site == "interp":
+            phase = task.tags.get("ord_phase", 0)
+            task.tags["ord_phase"] = phase + 1
+            perms = o["perms"]
+            if phase < len(perms) and idx < len(perms[phase]):
+                return 100.0 * perms[phase][idx]
+            return 0.0
+        if site.startswith("barrier"):
+            task.tags["ord_after_barrier"] = task.tags.get("ord_phase", 0)
+            return 0.0
+        if site.startswith("L") and task.tags.get("ord_after_barrier") is not None:
+            phase = task.tags.pop("ord_after_barrier")
+            if o.get("stall") is not None and tuple(o["stall"]) == (idx, phase):
+                return 5000.0
+        return 0.0
 
     def __call__(self, task, site):
         p = self.profile
         if p == "canonical":
             return 0.0
+        if p == "ordered":
+            return self._ordered(task, site)
         ch = self.ch
         if p == "tiny":
             return ch.draw("d", 4) * 1e-9
